@@ -312,7 +312,12 @@ pub fn random_faults(seed: u64, k: usize) -> Outcome {
     let mut b = base_config(seed ^ 0xB16, k, true);
     let mut r = Prng::new(seed ^ (k as u64) << 20 ^ 0xFA17);
     let site = b.cell.name();
-    match r.below(4) {
+    match r.below(5) {
+        4 => {
+            // TCP connection attempts to the target fail with an error other than "refused"
+            // (timed out, network unreachable, reset): not a response, and not fatal either
+            b.wcfg.topo.tcp = TcpMode::Fails(*r.pick(&[libc::ETIMEDOUT, libc::ENETUNREACH, libc::ECONNRESET, libc::EHOSTUNREACH]));
+        }
         0 => {
             // a network that withholds everything
             for h in &mut b.wcfg.topo.hops {
